@@ -244,6 +244,42 @@ func ruleSizeTables(c *Check, p *Program, rule string) {
 			}
 		}
 	}
+	if g := pkg.Func("Put"); g != nil && len(put) == 0 && idxFn != nil {
+		// or the switch is on the code that Index gives for the capacity: code -> pool, and sizes through Index
+		var code ssa.Value
+		for _, ci := range callsIn(g) {
+			if call, isC := ci.(*ssa.Call); isC && staticCallee(ci) == idxFn {
+				fromCap := false
+				walkBack(call.Call.Args[0], false, func(v ssa.Value) bool {
+					if cc, isCall := v.(*ssa.Call); isCall {
+						if bi, isB := cc.Call.Value.(*ssa.Builtin); isB && bi.Name() == "cap" {
+							fromCap = true
+						}
+					}
+					return true
+				})
+				if fromCap {
+					code = call
+				}
+			}
+		}
+		if code != nil {
+			sets, perEdge := valueSetsFull(g, func(v ssa.Value) bool { return stripSameWidth(v) == code }, code.(ssa.Instruction).Block(), 8)
+			for _, ci := range callsIn(g) {
+				if f := staticCallee(ci); f != nil && f.Name() == "Put" && strings.Contains(f.String(), "sync.Pool") {
+					for _, o := range poolOutcomes(ci, sets, perEdge) {
+						if sv := o.when; len(sv) == 1 && sv[0].lo == sv[0].hi {
+							for size, k := range index {
+								if k == sv[0].lo {
+									put[size] = o.pool
+								}
+							}
+						}
+					}
+				}
+			}
+		}
+	}
 	want := map[uint64]uint64{1 << 16: 4, 1 << 18: 5, 1 << 20: 6, 1 << 22: 7, 1 << 23: 3}
 	var sizes []uint64
 	for s := range want {
@@ -765,7 +801,7 @@ func ruleLegacyNoRaw(c *Check, p *Program, rule string) {
 	// In legacy mode the compressor gets the whole block buffer, not a destination cut to len(src): the cut is the
 	// device that makes the compressor give up on incompressible data, which is what selects the raw fallback.
 	whole, cut := false, ""
-	allInstrs(cp, func(in ssa.Instruction) {
+	allInstrsDeep(cp, func(in ssa.Instruction) {
 		sl, ok := in.(*ssa.Slice)
 		if !ok || sl.High == nil || !(loadField(sl.X) == "FrameDataBlock.data" || derivesFromField(sl.X, "FrameDataBlock.data")) {
 			return
@@ -785,7 +821,7 @@ func ruleLegacyNoRaw(c *Check, p *Program, rule string) {
 					whole = true
 				}
 			case "len":
-				if len(cp.Params) > 2 && call.Call.Args[0] == ssa.Value(cp.Params[2]) && !hasAtom(ats, "legacy", "", false) {
+				if prm, isPrm := call.Call.Args[0].(*ssa.Parameter); isPrm && isSliceType(prm.Type()) && !hasAtom(ats, "legacy", "", false) {
 					cut = p.InstrPos(in)
 				}
 			}
@@ -939,6 +975,16 @@ func ruleTrailerLayout(c *Check, p *Program, rule string) {
 						if len(shifts) == 4 && shifts[0] == 0 && shifts[1] == 8 && shifts[2] == 16 && shifts[3] == 24 {
 							okLE = true
 						}
+						// or the four bytes are produced by binary.LittleEndian.PutUint32 into the same local array
+						for _, r := range *al.Referrers() {
+							if s2, isS2 := r.(*ssa.Slice); isS2 {
+								for _, rr := range *s2.Referrers() {
+									if ci, isCI := rr.(ssa.CallInstruction); isCI && isBinaryLE(ci, "PutUint32") && staticCallee(ci) != nil && strings.Contains(staticCallee(ci).String(), "littleEndian") {
+										okLE = true
+									}
+								}
+							}
+						}
 					}
 				}
 			}
@@ -992,8 +1038,71 @@ func ruleDescriptorConstants(c *Check, p *Program, rule string) {
 		c.Cond(rs, rule, "InitW#content-hash-reset", p.Pos(f.Pos()), "the running content hash is reset at the start of every frame", "checksum.Reset() unconditional", "checksum.Reset() missing or conditional in InitW")
 	}
 	// header check byte: bits 8..15 of XXH32 over the descriptor, shared by writer and reader
-	dc := findFn(c, p, rule, "internal/lz4stream", "descriptorChecksum")
+	dc := p.Func("internal/lz4stream", "descriptorChecksum")
+	if dc == nil {
+		// no shared helper: writer and reader compute the check byte in place; the same two facts are decided at
+		// each of the two computations (bits 8..15 of the hash; the writer hashes everything after the magic)
+		secondByte := func(fn *ssa.Function) (found, good bool, arg ssa.Value) {
+			for _, ci := range callsInDeep(fn) {
+				call, isC := ci.(*ssa.Call)
+				if !isC || !calleeIs(call, pkgXXH, "ChecksumZero") {
+					continue
+				}
+				found = true
+				arg = call.Call.Args[0]
+				allInstrsDeep(fn, func(in ssa.Instruction) {
+					cv, isCv := in.(*ssa.Convert)
+					if !isCv || widthOf(cv.Type()) != 8 {
+						return
+					}
+					uses := false
+					walkBack(cv, true, func(v ssa.Value) bool {
+						if v == ssa.Value(call) {
+							uses = true
+						}
+						return true
+					})
+					if !uses {
+						return
+					}
+					env := &bitEnv{vals: map[ssa.Value]bitvec{call: inputVec('i', 32)}, ok: true}
+					bv := env.eval(cv)
+					okBits := env.ok
+					for i := 0; i < 8; i++ {
+						if bv[i].kind != 'i' || bv[i].idx != i+8 {
+							okBits = false
+						}
+					}
+					if okBits {
+						good = true
+					}
+				})
+			}
+			return
+		}
+		dwF := p.Func("internal/lz4stream", "FrameDescriptor.Write")
+		drF := p.Func("internal/lz4stream", "FrameDescriptor.initR")
+		fw, gw, aw := false, false, ssa.Value(nil)
+		fr, gr := false, false
+		if dwF != nil {
+			fw, gw, aw = secondByte(dwF)
+		}
+		if drF != nil {
+			fr, gr, _ = secondByte(drF)
+		}
+		c.Cond(fw && fr && gw && gr, rule, "descriptorChecksum#second-byte", "internal/lz4stream/frame.go", "the header check byte is byte(XXH32(descriptor) >> 8), in the writer and in the reader", "byte(ChecksumZero(...) >> 8) at both computations", fmt.Sprintf("hash computed in Write: %v (second byte: %v); in initR: %v (second byte: %v)", fw, gw, fr, gr))
+		okRange := false
+		if sl, isS := aw.(*ssa.Slice); isS && sl.Low != nil && sl.High == nil {
+			if k, isK := constUint(sl.Low); isK && k == 4 {
+				okRange = true
+			}
+		}
+		if dwF != nil {
+			c.Cond(okRange, rule, "FrameDescriptor.Write#hash-range", p.Pos(dwF.Pos()), "the writer computes the check byte over the descriptor (everything after the 4-byte magic)", "ChecksumZero(buf[4:])", "the hashed range is not buf[4:]")
+		}
+	}
 	if dc != nil {
+		c.Funcs[fname(dc)] = true
 		// bit provenance: the returned byte is bits 8..15 of ChecksumZero(whole argument)
 		ok := false
 		var hcall *ssa.Call
